@@ -24,9 +24,20 @@ def main():
 			ctx.notes['overlay_loaded'] = {spec['shard'].get('sanitizer', 'plain'): 1}
 		from vf import reach
 		mon = reach.start(getattr(mod, 'REACH', []))
+		cons = spec['shard'].get('contracts')
+		if cons:
+			from vf import contracts
+			ctx.notes['contracts_rebound'] = contracts.install(tuple(cons))
 		try:
-			mod.run_shard(spec['shard'], ctx)
+			if spec['shard'].get('kind') == 'suite-contracts':
+				from vf import suite
+				suite.run_under_contracts(spec['shard'], ctx)
+			else:
+				mod.run_shard(spec['shard'], ctx)
 		finally:
+			if cons:
+				contracts.drain_into(ctx)
+				contracts.uninstall()
 			if mon is not None:
 				ctx.notes['reach'] = mon.stop()
 	except BaseException as e:  # harness failure: inconclusive, never a violation
